@@ -93,6 +93,23 @@ Definition req_classify (arg : sx) : sx :=
   | None => bad
   end.
 
+(* 205: number of WebVTT layout groups per caption; nodes: 0 = text without layout, k > 0 = text with
+   layout k, -1 = break, -2 / -3 = style node that emits / does not emit a tag *)
+Definition sx_vnode (x : sx) : option vnode :=
+  match x with
+  | SI 0 => Some (VText None)
+  | SI (-1) => Some VBreak
+  | SI (-2) => Some (VStyle true)
+  | SI (-3) => Some (VStyle false)
+  | SI k => if 0 <? k then Some (VText (Some k)) else None
+  | _ => None
+  end.
+Definition req_groups (arg : sx) : sx :=
+  match sx_listof (sx_listof sx_vnode) arg with
+  | Some l => of_list (fun ns => SI (Z.of_nat (vtt_group_count ns))) l
+  | None => bad
+  end.
+
 Definition dispatch (code : Z) (arg : sx) : option sx :=
   match code with
   | 200 => Some (req_model arg)
@@ -100,5 +117,6 @@ Definition dispatch (code : Z) (arg : sx) : option sx :=
   | 202 => Some (req_sami_model arg)
   | 203 => Some (req_ok_sami arg)
   | 204 => Some (req_classify arg)
+  | 205 => Some (req_groups arg)
   | _ => None
   end.
